@@ -72,6 +72,14 @@ func feedTokens(v ssa.Value) map[string]bool {
 				for _, a := range cv.Common().Args {
 					walk(a, depth+1)
 				}
+				// a helper of the module: what it returns is computed from (its parameters stand for the arguments walked above)
+				if callee := cv.Common().StaticCallee(); callee != nil && len(callee.Blocks) > 0 && callee.Pkg != nil && cv.Parent() != nil && callee.Pkg == cv.Parent().Pkg && depth < 6 {
+					for _, r := range Returns(callee) {
+						if o.Idx < len(r.Results) {
+							walk(ReturnResult(r, o.Idx), depth+3)
+						}
+					}
+				}
 			case "binop":
 				if bo, ok := o.Val.(*ssa.BinOp); ok {
 					walk(bo.X, depth+1)
